@@ -520,6 +520,15 @@ package kv
 //@ note scope: offsets stay below 2^62 (a log position; machine-arithmetic wrap-around of offset+1 is outside the scope)
 //@ ensures err == nil ==> forall i int, j int :: 0 <= i && i < j && j < len(res) ==> res[i].Offset < res[j].Offset
 
+// Applying a request through the interface, as the controllers do: the database lives
+// in this package and cannot reach the controllers', the log's or the log readers'
+// state (unexported types of packages this one does not import).
+//@ func DB.ProcessWrite(recv, b, commitOffset, timestamp, updateOperationCallback) (res, err)
+//@ trusted
+//@ modifies *
+//@ preserves fields(github.com/oxia-db/oxia/server.followerController), fields(github.com/oxia-db/oxia/server.leaderController), fields(github.com/oxia-db/oxia/server/wal.reader), fields(github.com/oxia-db/oxia/server/wal.forwardReader), fields(github.com/oxia-db/oxia/server/wal.wal), fields(proto.LogEntry), fields(proto.LogEntryValue), fields(proto.WriteRequests)
+//@ note trusted: db.ProcessWrite (the only implementation) is verified in this package against its own contract
+
 //@ func DB.ReadCommitOffset
 //@ trusted
 //@ modifies nothing
